@@ -272,6 +272,7 @@ def run(ctx):
     rule_errprop(ctx, cd, "ser", "R-C01-ERRPROP")
     rule_advance(ctx, cd)
     _codec.rule_zero_cost(ctx, pyfront.PyIndex(ctx.root), "R-C01-ZEROCOST")
+    _codec.rule_std_width(ctx, pyfront.PyIndex(ctx.root), "R-C01-STDWIDTH")
     _codec.rule_sat_use(ctx, cd, "R-C01-SAT-USE")
     _codec.rule_offset_sets(ctx, cd, "ser", "R-C01-OFFSET-SET")
     _codec.rule_padding(ctx, cd, "ser", "R-C01-PADDING")
